@@ -92,6 +92,7 @@ class Gen:
         self.name_types = {'the_light': 'str'}
         self.loop_names = []      # may be reused as parameter names (a parameter hides them)
         self.written = set()      # registers certainly written (at top level) so far
+        self.nested_defs = 0
         self.no_growth = False    # set while generating an assignment that may run many times
         self.nest = 0             # depth of enclosing if/loop/routine/matrix blocks
 
@@ -226,6 +227,14 @@ class Gen:
         for _ in range(n):
             if self.budget <= 0:
                 break
+            if self.profile == 'nested' and not scope.in_routine and not self.in_matrix and self.chance(0.25) and self.nested_defs < 3:
+                # a routine defined inside an if / repeat body: global like any other, callable afterwards
+                self.nested_defs += 1
+                saved_nest, saved_loop = self.nest, self.loop_depth
+                self.nest, self.loop_depth = 0, 0
+                out.append(self.gen_routine(10 + self.nested_defs))
+                self.nest, self.loop_depth = saved_nest, saved_loop
+                continue
             out += self.statement(scope, depth)
         return out or [self.stmt_print(scope)]
 
@@ -770,7 +779,8 @@ class Gen:
     def program(self):
         scope = Scope()
         stmts = []
-        nroutines = {'routines': self.rng.randint(1, 4), 'general': self.rng.randint(0, 2), 'loops': self.rng.randint(0, 1)}.get(self.profile, 0)
+        nroutines = {'routines': self.rng.randint(1, 4), 'general': self.rng.randint(0, 2), 'nested': self.rng.randint(0, 2),
+                     'loops': self.rng.randint(0, 1)}.get(self.profile, 0)
         # a few globals first so that routines have something to collide with
         for _ in range(self.rng.randint(0, 3)):
             stmts.append(self.stmt_assign(scope))
